@@ -8,6 +8,7 @@ UNITS = {
   'once3x': dict(ONCE, threads=thr('vp_thr_once', 3), exceptions=True, allow_atomic=['__clang_call_terminate']),
   'ets3': dict(wrapper='w_ets.cpp', mode='lcs', unroll=1, devirt=True, ptrhooks=True, threads={'vp_thr_ets': ['a', 'b', 'c', 'p']}),
   'ets2k2': dict(wrapper='w_ets.cpp', mode='lcs', unroll=2, devirt=True, ptrhooks=True, threads={'vp_thr_ets': ['a', 'b', 'p']}),
+  'etsk': dict(wrapper='w_etsk.cpp', mode='seq', prune=True),
   'ets2': dict(wrapper='w_ets.cpp', mode='lcs', unroll=1, devirt=True, ptrhooks=True, threads={'vp_thr_ets': ['a', 'b', 'p']}),
 }
 ETS_SC = [
@@ -27,6 +28,10 @@ HARNESSES = [
   dict(name='ets_2t', unit='ets2', harness='h_ets.c', defines={'NT': 2, 'ROUNDS': 1, 'HBITS': 3}, timeout=900, mem_gb=6, cbmc=['--unwind', '19'], scenarios=ETS_SC,
        desc='ets_base::table_lookup, 2 threads: first accesses / later access while the slot array is created or doubled; hash values of the racing ids symbolic (3 top bits)',
        bounds={'threads': 2, 'free_rounds': 1, 'forced_rounds': 2, 'unroll': 1, 'slots': '4->8', 'hash_bits': 3}),
+  dict(name='ets_clear', unit='etsk', harness='h_etsk.c', defines={'NT': 2}, timeout=600, mem_gb=6, cbmc=['--unwind', '16', '--max-field-sensitivity-array-size', '4096'],
+       scenarios=[{'FLAVOUR': 1}, {'FLAVOUR': 0}],
+       desc='real enumerable_thread_specific<int> (FLAVOUR 1: ets_key_per_instance native TLS, 0: ets_no_key), sequential steps of 2 model threads: local() x2, clear() by T0, local() x2 again',
+       bounds={'threads': 2, 'interleaving': 'none (sequential steps)', 'elements': 2}),
   # ---- thorough only
   dict(name='once_2t_r3', unit='once2', harness='h_once.c', defines={'NT': 2, 'ROUNDS': 3}, tiers=['thorough'], timeout=3000, scenarios=[{}, {'COVER': 1}],
        desc='collaborative_call_once, 2 callers, 3 free slices per caller (COVER1: a helper really assisted)', bounds={'threads': 2, 'free_rounds': 3, 'forced_rounds': 3, 'spin_unroll': 1}),
